@@ -149,7 +149,11 @@ func (it *Interp) builtinAppend(fr *frame, st types.Type, s *SliceV, add Value) 
 	}
 	nmax := it.lenBound(n, srcCap)
 	vals := it.readElems(fr, add, tt.Const(64, 0), nmax)
-	if it.ex.branch(fits, true) {
+	if s.base == nil {
+		if it.ex.branch(tt.Eq(n, tt.Const(64, 0)), false) {
+			return s
+		}
+	} else if it.ex.branch(fits, true) {
 		it.writeElems(fr, s, ls, vals, n)
 		return &SliceV{base: s.base, off: s.off, len: newLen, cap: s.cap}
 	}
@@ -267,6 +271,30 @@ func (it *Interp) callIntrinsic(fr *frame, f *FuncV, args []Value, site ssa.Inst
 			}
 			return nil
 		}
+	case "builtin:SliceData":
+		sl := args[0].(*SliceV)
+		if sl.base == nil {
+			return &PtrV{}
+		}
+		return it.elemPtr(sl.base, sl.off)
+	case "builtin:StringData":
+		it.unsupported("unsafe.StringData")
+	case "builtin:String":
+		p := args[0].(*PtrV)
+		n := int(it.ex.concretize(it.toIndex(args[1], site.(ssa.CallInstruction).Common().Args[1].Type())))
+		if n == 0 {
+			return &StrV{}
+		}
+		if p.isNil() || len(p.path) == 0 {
+			it.unsupported("unsafe.String on nil/odd pointer")
+		}
+		base := &PtrV{obj: p.obj, path: p.path[:len(p.path)-1]}
+		start := it.peTerm(p.path[len(p.path)-1])
+		out := make([]*Term, n)
+		for i := 0; i < n; i++ {
+			out[i] = it.load(fr, it.elemPtr(base, tt.Add(start, tt.Const(64, uint64(i))))).(*Term)
+		}
+		return it.mkStr(out)
 	case "builtin:ssa:wrapnilchk":
 		p := args[0].(*PtrV)
 		if p.isNil() {
